@@ -75,12 +75,21 @@ package primitives
 //@   loop 5:
 //@     invariant [C02] band: 0 <= i && i <= columns && j < rows - 2 && j0 == j * columns + 1 && j1 == (j + 1) * columns + 1 && len(tris) == 6 * columns + 6 * j * columns + 6 * i && v1i == 1 + (rows - 1) * columns && len(positions) == v1i + 1 && fresh(tris)
 //@     invariant [C02] band_indices: forall k int :: 0 <= k && k < len(tris) ==> 0 <= tris[k] && tris[k] <= v1i
-// Quad.ToMesh: four vertices (positions, normals), two triangles over them. The texture-coordinate array (four entries when
-// UVs are given) is not covered: the StripUVs corner methods have no contract, and after those calls nothing is known about the map.
+// StripUVs corner methods: loop-free vector arithmetic, their bodies are their contracts.
+//@ func StripUVs.Dir pure
+//@ func StripUVs.perpendicular pure
+//@ func StripUVs.StartLeft pure
+//@ func StripUVs.StartRight pure
+//@ func StripUVs.EndLeft pure
+//@ func StripUVs.EndRight pure
+// Quad.ToMesh: four vertices (positions, normals and, with UVs, texture coordinates), two triangles over them.
 //@ func Quad.ToMesh
 //@   props C01 C02
 //@   returns r
+//@   ensures [C02] well_formed_lengths: modeling.sameLen(r)
+//@   ensures [C02] well_formed_indices: modeling.idxOK(r)
 //@   ensures [C02] well_formed_topology: modeling.topoOK(r)
+//@   ensures [C02] uvs_per_vertex: forall k string :: has(r.v2Data, k) ==> len(r.v2Data[k]) == 4
 //@   ensures [C02] index_values: forall i int :: 0 <= i && i < len(r.indices) ==> 0 <= r.indices[i] && r.indices[i] < 4
 //@   ensures [C02] counts: len(r.indices) == 6 && has(r.v3Data, "Position") && len(r.v3Data["Position"]) == 4 && has(r.v3Data, "Normal") && len(r.v3Data["Normal"]) == 4 && r.topology == modeling.TriangleTopology
 // UVSphere: 2 + (rows-1)*columns vertices (positions and normals), 6*columns*(rows-1) indices, every index a vertex
